@@ -162,6 +162,36 @@ def domain(quick, rng):
             'inf', 'nan', '-inf', 'Infinity', '1_0', '١٢', '１２:３０', ' 12 ', '12 :30', '1,5', '1:2,5', '0x10', '1.2.3',
             '1:1.2.3', 'None', 'True', '\n', '12\n', '1:2\n', '\x00', '1\x00', 'é', '12:é', '9' * 400, '9' * 5000, '1:' + '9' * 5000,
             '.', '1:.', '.:.', '1e400', '1:1e400', '--1', '1:-0', 'nan:1', 'inf:inf', '1;', ';;', ';1;', '  ;  ', '1 ; 2']
+    # what the repository's own tests feed to the three functions
+    cor = common.suite_corpus()
+    ru_c, ft_c, ph_c = [], [], []
+    for c in cor.get('athlib.utils.round_up_str_num', []):
+        a, k = c.get('a', []), c.get('k', {})
+        prec = k.get('precision', k.get('prec', a[1] if len(a) > 1 else None))
+        m = _NUM.match(a[0]) if a and isinstance(a[0], str) else None
+        if m and isinstance(prec, int) and 0 <= prec <= 5 and (m.group(1) or m.group(3)) and len(m.group(1)) <= 6 and len(m.group(3)) <= 12:
+            ru_c.append((m.group(1), m.group(3), m.group(2) == '.', prec))
+    for c in cor.get('athlib.utils.format_seconds_as_time', []):
+        a, k = c.get('a', []), c.get('k', {})
+        prec = k.get('prec', a[1] if len(a) > 1 else 2)
+        if a and isinstance(a[0], (int, float)) and not isinstance(a[0], bool) and 0 <= a[0] < 360000 and isinstance(prec, int) and 0 <= prec <= 3:
+            ft_c += [(a[0], p_) for p_ in range(4)]
+    for c in cor.get('athlib.utils.parse_hms', []) + cor.get('athlib.utils.str2num', []):
+        a = c.get('a', [])
+        if a and isinstance(a[0], str):
+            t = a[0]
+            sep = ':' if ':' in t else ';' if ';' in t else ':'
+            fs = t.split(sep)
+            if 1 <= len(fs) <= 3 and all(_NUM.match(f) and (f.strip('.') != '') and len(f) <= 12 for f in fs) and (';' not in t or ':' not in t):
+                ph_c.append((fs, sep))
+            else:
+                junk.append(t)
+    if ru_c:
+        jobs.append(('ru', sorted(set(ru_c))))
+    if ft_c:
+        jobs.append(('ft', sorted(set(ft_c))))
+    if ph_c:
+        jobs.append(('ph', [list(x) for x in {(tuple(f), s_) for f, s_ in ph_c}] and [(list(f), s_) for f, s_ in sorted({(tuple(f), s_) for f, s_ in ph_c})]))
     chars = '0123456789:;.,-+eE _abnif\n '
     for _ in range(3000 if quick else 30000):
         junk.append(''.join(rng.choice(chars) for _ in range(rng.randint(0, 9))))
